@@ -24,6 +24,15 @@ pub fn cfg_for(family: &str) -> GenCfg {
             c.array_rate = 0.5;
             c.string_rate = 0.4;
         }
+        "alloc" => {
+            // floats, strings, (nested) arrays and calls: every function return collects
+            c.float_rate = 0.3;
+            c.string_rate = 0.3;
+            c.array_rate = 0.4;
+            c.func_rate = 0.5;
+            c.loop_rate = 0.15;
+            c.max_stmts = 9;
+        }
         "closed" => {
             // no function definitions: the whole program can be moved into a function body
             c.func_rate = 0.0;
